@@ -14,6 +14,11 @@ Clauses
   c03.no_color_params         no_color: no colour parameter in any SGR
   c03.no_control_not_terminal not a terminal: no control codes (control segments are dropped)
   c03.style_reuse             the same Style object printed on consoles with different colour systems
+
+Input families: sequences of styled / unstyled / control segments (a) printed as they are and (b) printed
+*with a base style* ("the style it was printed with" = base style overlaid by the segment's own style; the
+caller's control segments carry no style whichever way they are printed), the base style given through
+``print(style=)``, ``Console(style=)`` or a ``Styled`` wrapper.  Every clause above is evaluated on both.
 """
 import io
 import itertools
@@ -192,6 +197,22 @@ def build_style(spec):
     return Style(color=spec["fg"], bgcolor=spec["bg"], link=spec["link"], **kwargs)
 
 
+BASE_VIAS = ("print", "console", "styled")
+
+
+def combine_spec(base, spec):
+    """Specification of the style a segment with ``spec`` is printed with under base style ``base``: every
+    attribute / colour / link the segment sets wins, everything it leaves unset comes from the base."""
+    if base is None:
+        return spec
+    if spec is None:
+        return base
+    return {"attrs": tuple(b if a is None else a for a, b in zip(spec["attrs"], base["attrs"])),
+            "fg": base["fg"] if spec["fg"] is None else spec["fg"],
+            "bg": base["bg"] if spec["bg"] is None else spec["bg"],
+            "link": base["link"] if spec["link"] is None else spec["link"]}
+
+
 def expected_meaning(spec, system, no_color=False, legacy_windows=False):
     """(attrs on, set of acceptable fg, set of acceptable bg, link) a terminal must show for ``spec``."""
     if spec is None or system is None:
@@ -256,34 +277,45 @@ class _SegmentsRenderable:
         yield from self.segments
 
 
-def write_case(segs, config, path="segments", styles=None):
+def write_case(segs, config, path="segments", styles=None, base=None):
     """Print the sequence on a fresh console and return the characters written.
-    ``styles``: optional list of prebuilt Style objects (same length as segs) - used by the reuse scenario."""
+    ``styles``: optional list of prebuilt Style objects (same length as segs) - used by the reuse scenario.
+    ``base``: optional {"style": spec, "via": one of BASE_VIAS} - the base style the sequence is printed with."""
     from rich.console import Console
     from rich.segment import Segment
     from rich.text import Text
 
     file = io.StringIO()
+    base_style = None if base is None else build_style(base["style"])
+    via = None if base is None else base["via"]
+    assert via in (None,) + BASE_VIAS, via
+    console_kwargs = {"style": base_style} if via == "console" else {}
+    print_kwargs = {"style": base_style} if via == "print" else {}
     console = Console(file=file, color_system=config["color_system"], force_terminal=config["force_terminal"],
                       no_color=config["no_color"], legacy_windows=config["legacy_windows"], width=200,
-                      _environ={})
+                      _environ={}, **console_kwargs)
     if styles is None:
         styles = [None if spec is None else build_style(spec) for _t, spec, _c in segs]
     if path == "text":
         parts = []
         for (text, _spec, _ctrl), style in zip(segs, styles):
             parts.append(text if style is None else (text, style))
-        console.print(Text.assemble(*parts, end=""), end="")
+        renderable = Text.assemble(*parts, end="")
     else:
         segments = [Segment(text, style, True) if ctrl else Segment(text, style)
                     for (text, _spec, ctrl), style in zip(segs, styles)]
-        console.print(_SegmentsRenderable(segments), end="")
+        renderable = _SegmentsRenderable(segments)
+    if via == "styled":
+        from rich.styled import Styled
+
+        renderable = Styled(renderable, base_style)
+    console.print(renderable, end="", **print_kwargs)
     return file.getvalue()
 
 
-def check_stream(out, segs, config):
-    """Compare the written characters with the meaning of the segments. Returns (clauses evaluated,
-    list of (clause, what, expected, observed))."""
+def check_stream(out, segs, config, base=None):
+    """Compare the written characters with the meaning of the segments (printed with base style ``base``).
+    Returns (clauses evaluated, list of (clause, what, expected, observed))."""
     system = config["color_system"]
     terminal = bool(config["force_terminal"])
     no_color = config["no_color"]
@@ -296,6 +328,8 @@ def check_stream(out, segs, config):
     for si, (text, spec, ctrl) in enumerate(segs):
         if ctrl:
             continue
+        if base is not None:
+            spec = combine_spec(base["style"], spec)
         on, fgs, bgs, link = expected_meaning(spec, system, no_color, legacy)
         for ch in text:
             exp_cells.append((ch, on, fgs, bgs, link, si, not spec_is_null(spec)))
@@ -385,18 +419,30 @@ def config_key(config):
                                   int(config["legacy_windows"]))
 
 
-def case_json(segs, config, path):
-    return {"segments": [[t, spec_json(s), c] for t, s, c in segs], "config": config, "path": path}
+def base_json(base):
+    return None if base is None else {"style": spec_json(base["style"]), "via": base["via"]}
 
 
-def case_key(segs, config, path):
-    blob = json.dumps(case_json(segs, {}, path), sort_keys=True, ensure_ascii=True)
-    return "%s:%08x/%s" % (path[0], zlib.crc32(blob.encode()), config_key(config))
+def base_from_json(obj):
+    return None if obj is None else {"style": spec_from_json(obj["style"]), "via": obj["via"]}
 
 
-def evaluate(segs, config, path):
-    out = write_case(segs, config, path)
-    return check_stream(out, segs, config)
+def case_json(segs, config, path, base=None):
+    out = {"segments": [[t, spec_json(s), c] for t, s, c in segs], "config": config, "path": path}
+    if base is not None:
+        out["base"] = base_json(base)
+    return out
+
+
+def case_key(segs, config, path, base=None):
+    blob = json.dumps(case_json(segs, {}, path, base), sort_keys=True, ensure_ascii=True)
+    tag = path[0] if base is None else "%s+%s" % (path[0], base["via"])
+    return "%s:%08x/%s" % (tag, zlib.crc32(blob.encode()), config_key(config))
+
+
+def evaluate(segs, config, path, base=None):
+    out = write_case(segs, config, path, base=base)
+    return check_stream(out, segs, config, base)
 
 
 def replay(inp):
@@ -404,20 +450,22 @@ def replay(inp):
     if "orders" in inp or "order" in inp:
         return evaluate_reuse(spec_from_json(inp["style"]), inp["order"], inp.get("text", "xy"))
     segs = [[t, spec_from_json(s), c] for t, s, c in inp["segments"]]
-    return evaluate(segs, inp["config"], inp["path"])
+    return evaluate(segs, inp["config"], inp["path"], base_from_json(inp.get("base")))
 
 
-def minimise(segs, config, path, clause):
-    """Greedy reduction keeping a failure of the same clause."""
+def minimise(segs, config, path, clause, base=None):
+    """Greedy reduction keeping a failure of the same clause. Returns (segments, base)."""
 
-    def still(s):
+    def still(s, b="same"):
         try:
-            _ev, fails = evaluate(s, config, path)
+            _ev, fails = evaluate(s, config, path, base if b == "same" else b)
         except Exception:  # pragma: no cover - an exception is not the failure being minimised
             return False
         return any(f[0] == clause for f in fails)
 
     cur = [list(s) for s in segs]
+    if base is not None and still(cur, None):
+        base = None  # the base style plays no part in this failure
     changed = True
     while changed and len(cur) > 1:
         changed = False
@@ -451,7 +499,23 @@ def minimise(segs, config, path, clause):
                 cand[k][1] = dict(cur[k][1], **{key: None})
                 if still(cand):
                     cur = cand
-    return cur
+    if base is not None:
+        bspec = base["style"]
+        for a in range(13):
+            if bspec["attrs"][a] is not None:
+                trial = list(bspec["attrs"])
+                trial[a] = None
+                cand_spec = dict(bspec, attrs=tuple(trial))
+                # keep one component set: a base style that sets nothing is a different (null) input
+                if not spec_is_null(cand_spec) and still(cur, dict(base, style=cand_spec)):
+                    bspec = cand_spec
+        for key in ("fg", "bg", "link"):
+            if bspec[key] is not None:
+                cand_spec = dict(bspec, **{key: None})
+                if not spec_is_null(cand_spec) and still(cur, dict(base, style=cand_spec)):
+                    bspec = cand_spec
+        base = dict(base, style=bspec)
+    return cur, base
 
 
 # ------------------------------------------------------------------------------------------ reuse scenario
@@ -490,9 +554,10 @@ def evaluate_reuse(spec, order, text="xy"):
 
 def _plan(tier, seed):
     if tier == "quick":
-        return {"blocks": 40, "n_random": 30, "sequences": 1500, "others_per_seq": 4, "reuse": 220, "procs": 1}
+        return {"blocks": 40, "n_random": 30, "sequences": 1500, "others_per_seq": 4, "reuse": 220, "procs": 1,
+                "base_every": 3, "base_others": 1}
     return {"blocks": 60, "n_random": 400, "sequences": 6000, "others_per_seq": len(OTHER_CONFIGS),
-            "reuse": 600, "procs": 16}
+            "reuse": 600, "procs": 16, "base_every": 1, "base_others": 3}
 
 
 _CASES_CACHE = {}
@@ -520,7 +585,26 @@ def _build_cases(tier, seed):
                 other = OTHER_CONFIGS[(idx * plan["others_per_seq"] + j + SYSTEMS.index(system)) % n_other]
                 config = dict(other, color_system=system)
                 path = "text" if (not has_control and not has_tab and (idx + j) % 3 == 0) else "segments"
-                cases.append(("seq", idx, segs, config, path))
+                cases.append(("seq", idx, segs, config, path, None))
+    # the same sequences printed with a base style: print(style=) / Console(style=) / Styled in turn, every
+    # colour system, the other settings rotated (one per case, so every one of the 12 comes round).
+    # every 16th base style sets nothing (prints like no base style at all).
+    brng = random.Random(seed * 15485863 + 11)
+    null_spec = {"attrs": (None,) * 13, "fg": None, "bg": None, "link": None}
+    b = 0
+    for idx, segs in enumerate(seqs):
+        has_control = any(c for _t, _s, c in segs)
+        if not (has_control or idx % plan["base_every"] == 0):
+            continue
+        has_tab = any("\t" in t for t, _s, _c in segs)
+        for system in SYSTEMS:
+            bspec = null_spec if b % 16 == 15 else pool[brng.randrange(len(pool))]
+            base = {"style": bspec, "via": BASE_VIAS[(b + b // 15) % len(BASE_VIAS)]}
+            for j in range(plan["base_others"]):
+                config = dict(OTHER_CONFIGS[(b * 5 + j * 7 + b // n_other) % n_other], color_system=system)
+                path = "text" if (not has_control and not has_tab and (b + j) % 3 == 0) else "segments"
+                cases.append(("seq", idx, segs, config, path, base))
+            b += 1
     reuse_specs = [s for s in pool if colour_class(s["fg"]) in ("rgb", "256") or
                    colour_class(s["bg"]) in ("rgb", "256")]
     for k in range(min(plan["reuse"], len(reuse_specs))):
@@ -537,8 +621,8 @@ def _run_chunk(args):
         case = cases[ci]
         try:
             if case[0] == "seq":
-                _k, idx, segs, config, path = case
-                evaluated, fails = evaluate(segs, config, path)
+                _k, idx, segs, config, path, base = case
+                evaluated, fails = evaluate(segs, config, path, base)
             else:
                 _k, k, spec, order, _ = case
                 evaluated, fails = evaluate_reuse(spec, order)
@@ -577,10 +661,12 @@ def run(tier: str = "quick", seed: int = 0) -> dict:
         for c in evaluated:
             clauses[c] = clauses.get(c, 0) + 1
         if case[0] == "seq":
-            _k, idx, segs, config, path = case
-            key = case_key(segs, config, path)
+            _k, idx, segs, config, path, base = case
+            key = case_key(segs, config, path, base)
             distinct.add(key)
-            if any((not c) and t and not spec_is_null(s) for t, s, c in segs) or any(c for _t, _s, c in segs):
+            bstyle = None if base is None else base["style"]
+            if (any((not c) and t and not spec_is_null(combine_spec(bstyle, s)) for t, s, c in segs)
+                    or any(c for _t, _s, c in segs)):
                 nontrivial.add(key)
         else:
             _k, k, spec, order, _ = case
@@ -592,16 +678,16 @@ def run(tier: str = "quick", seed: int = 0) -> dict:
             if per_clause.get(clause, 0) >= MAX_FAIL:
                 continue
             if case[0] == "seq":
-                small = minimise(segs, config, path, clause)
-                _ev, f2 = evaluate(small, config, path)
+                small, small_base = minimise(segs, config, path, clause, base)
+                _ev, f2 = evaluate(small, config, path, small_base)
                 hit = next((f for f in f2 if f[0] == clause), None)
                 if hit is not None:
                     what, exp, obs = hit[1], _jsonable(hit[2]), _jsonable(hit[3])
                 else:  # pragma: no cover
-                    small = segs
+                    small, small_base = segs, base
                 _add_failure(failures, per_clause, {
-                    "check": clause, "what": what, "input_key": case_key(small, config, path),
-                    "input": case_json(small, config, path), "expected": exp, "observed": obs})
+                    "check": clause, "what": what, "input_key": case_key(small, config, path, small_base),
+                    "input": case_json(small, config, path, small_base), "expected": exp, "observed": obs})
             else:
                 small_spec, small_order = _minimise_reuse(spec, order)
                 _ev, f2 = evaluate_reuse(small_spec, small_order)
@@ -616,9 +702,11 @@ def run(tier: str = "quick", seed: int = 0) -> dict:
                     "expected": exp, "observed": obs})
 
     samples = []
-    for case in (cases[0], cases[len(cases) // 3], cases[-1]):
+    base_cases = [c for c in cases if c[0] == "seq" and c[5] is not None]
+    n_base_ctrl = sum(1 for c in base_cases if any(ctrl for _t, _s, ctrl in c[2]))
+    for case in (cases[0], base_cases[len(base_cases) // 3], cases[-1], cases[len(cases) // 3]):
         if case[0] == "seq":
-            samples.append(case_json(case[2], case[3], case[4]))
+            samples.append(case_json(case[2], case[3], case[4], case[5]))
         else:
             samples.append({"style": spec_json(case[2]), "order": list(case[3])})
     classes = sorted({(colour_class(s["fg"]), colour_class(s["bg"])) for s in pool})
@@ -626,17 +714,21 @@ def run(tier: str = "quick", seed: int = 0) -> dict:
         "evaluations": len(results),
         "distinct_nontrivial": len(nontrivial),
         "rule": ("cases = (segment sequence x console configuration) plus (one Style object x order of colour "
-                 "systems); distinct by (path, crc of the sequence, configuration); non-trivial = has a visible "
-                 "character carrying a non-null style or a control segment; %d distinct cases in all; style pool "
+                 "systems); a sequence is printed as it is or with a base style; distinct by (path, base route, crc of "
+                 "the sequence and base style, configuration); non-trivial = has a visible "
+                 "character carrying a non-null style (base included) or a control segment; %d distinct cases in all; style pool "
                  "of %d specs in blocks of 27 from OA(27,13,3,2) (pairwise complete, asserted), %d fg/bg class "
                  "pairs covered" % (len(distinct), len(pool), len(classes))),
         "bound": ("tier %s seed %d: %d sequences of 1..5 segments (texts %d incl. empty/wide/tab; every 4th with a "
                   "control segment) x 5 colour systems x %d of 12 (no_color x force_terminal{T,F,None} x "
                   "legacy_windows) rotated; colours: none, default, 16 names, color(n) n in %s, 5^3 lattice %s as "
                   "#hex/rgb(), 10 near-greys, %d random; links %d; print paths: Segments via renderable, "
-                  "Text.assemble; reuse: %d styles x %d orders; width 200" % (
+                  "Text.assemble; base style: %d cases (%d with a control segment) = sequences with a control segment and "
+                  "1 in %d of the others x 5 colour systems x %d of 12, base from the pool (every 16th sets nothing) via "
+                  "print(style=) / Console(style=) / Styled; reuse: %d styles x %d orders; width 200" % (
                       tier, seed, plan["sequences"], len(TEXTS), plan["others_per_seq"], list(INDEXED_SPREAD),
-                      list(LATTICE), plan["n_random"], 2, min(plan["reuse"], len(pool)), len(REUSE_ORDERS))),
+                      list(LATTICE), plan["n_random"], 2, len(base_cases), n_base_ctrl, plan["base_every"],
+                      plan["base_others"], min(plan["reuse"], len(pool)), len(REUSE_ORDERS))),
         "samples": samples,
         "clauses": clauses,
         "failures": failures,
